@@ -413,7 +413,7 @@ T("C14", "twin-empty-request-dict-calls", "c2.py", "        request = request or
 M("C14", "memoised-list-result", "beacon.py", "def parse_gargle(data: bytes) -> list:", "@functools.lru_cache(maxsize=64)\ndef parse_gargle(data: bytes) -> list:", "C14.R6")
 T("C14", "twin-memoised-scalar", "beacon.py", "def null_terminated_str(", "@functools.lru_cache(maxsize=64)\ndef null_terminated_str(")
 M("C16", "unquote-before-split", "c2.py", "", "", "C16.R7",
-  edits=[("c2.py", "from urllib.parse import parse_qsl, urlparse", "from urllib.parse import parse_qsl, unquote_to_bytes, urlparse"),
+  edits=[("c2.py", "from urllib.parse import parse_qsl, urlsplit", "from urllib.parse import parse_qsl, unquote_to_bytes, urlsplit"),
          ("c2.py", "    uri = uri.decode(\"ascii\", errors=\"ignore\").encode()", "    uri = unquote_to_bytes(uri).decode(\"ascii\", errors=\"ignore\").encode()")])
 M("C16", "memoised-parser", "c2.py", "", "", "C16.R8",
   edits=[("c2.py", "import base64\n", "import base64\nimport functools\n"), ("c2.py", "def parse_raw_http(data: bytes)", "@functools.lru_cache(maxsize=32)\ndef parse_raw_http(data: bytes)")])
